@@ -7,19 +7,20 @@ test suite must pass, demo must fail; run the given checks with VERIF_REPO=<work
 import os, sys, json, shutil, subprocess
 wt, which, sid, prop, *checks = sys.argv[1:]
 V = '/verif'
+DEMO_PY = os.environ.get('DEMO_PY', '/venv/bin/python')
 def sh(cmd, **kw):
     return subprocess.run(cmd, shell=True, capture_output=True, text=True, **kw)
 diff, demo = f'{wt}/mut{which}.diff', f'{wt}/demo{which}.py'
 assert os.path.exists(diff) and os.path.exists(demo), 'missing files'
 sh(f'git -C {wt} checkout -- mpyc')
 env = dict(os.environ, PYTHONPATH=wt)
-r0 = sh(f'cd {wt} && timeout 300 /venv/bin/python {demo}', env=env)
+r0 = sh(f'cd {wt} && timeout 300 {DEMO_PY} {demo}', env=env)
 print('demo on clean tree: exit', r0.returncode)
 a = sh(f'git -C {wt} apply {diff}')
 assert a.returncode == 0, a.stderr
 t = sh(f'cd {wt} && timeout 900 /venv/bin/python -m pytest -q -p no:cacheprovider --timeout=900 2>&1 | tail -1')
 print('tests with change:', t.stdout.strip())
-r1 = sh(f'cd {wt} && timeout 300 /venv/bin/python {demo}', env=env)
+r1 = sh(f'cd {wt} && timeout 300 {DEMO_PY} {demo}', env=env)
 print('demo with change: exit', r1.returncode, '|', (r1.stdout + r1.stderr).strip().splitlines()[-1][:200] if (r1.stdout + r1.stderr).strip() else '')
 results = {}
 for c in checks:
